@@ -439,6 +439,14 @@ func FuzzC43Decrypt(f *testing.F) {
 	f.Add(uint8(0), []byte{}, []byte("-----BEGIN NEBULA ED25519 ENCRYPTED PRIVATE KEY-----\n-----END NEBULA ED25519 ENCRYPTED PRIVATE KEY-----\n"))
 	f.Fuzz(func(t *testing.T, which uint8, pass []byte, data []byte) {
 		c := bases[int(which)%len(bases)]
+		// the input may be (an equivalent of) ANY base file with that base's passphrase: judge against it
+		if t, _, ok, hp := c43Parse(data); ok && hp {
+			for _, b := range bases {
+				if t == b.tuple && bytes.Equal(pass, b.pass) {
+					c = b
+				}
+			}
+		}
 		c43JudgeMutant(func(f string, a ...any) { t.Fatalf(f, a...) }, c, pass, data, "fuzz input")
 	})
 }
